@@ -1,17 +1,18 @@
 import torch
 from tsv.driver import run_check
 from .allharness import transforms
+from contracts.dtypes import dtype_harnesses
 
 
 def run(tier, seed, update_ledger=False, only=None, jobs=None):
-    hs = transforms({"C19"}, tier, dtype=torch.float64) + transforms({"C19"}, tier)
+    hs = transforms({"C19"}, tier, dtype=torch.float64) + transforms({"C19"}, tier) + dtype_harnesses(tier)
     hs = [h for h in hs if not only or only in h.hid]
     return run_check("C19", hs, tier=tier, seed=seed, update_ledger=update_ledger, jobs=jobs, level="other",
                      explanation=("PARTIAL claim. Decided by contracts: with a .double() model and float64 inputs (and with float32), no path raises a dtype error "
                                   "(same-dtype rule at every matmul-family op, dtypes computed by real torch meta inference) and every returned tensor carries the dtype of the "
                                   "inputs. NOT decided by this family: numerical agreement of float32 with float64 (floating-point error analysis); the singularities that "
                                   "make float32 blow up are covered over the reals by C02 / C17."),
-                     unbounded_in=["all values"], bounded_in={"classes": "elementwise transform classes (nonlinearities, standard, normalization in eval mode)"},
+                     unbounded_in=["all values"], bounded_in={"classes": "elementwise transform classes; coupling, autoregressive, linear family, permutations, squeeze, composite, CDF, BatchNorm; StandardNormal, ConditionalDiagonalNormal; MaskedAutoregressiveFlow, SimpleRealNVP (log_prob, sample, sample_and_log_prob, transform_to_noise)"},
                      not_decided=["closeness of float32 and float64 results (floating-point error analysis is outside contract-based deductive verification over the reals)",
-                                  "coupling / autoregressive / linear-family classes in float64 are not yet under the dtype contract"],
+                                  "UMNN transforms and the MADE mixture are not under the dtype contract"],
                      assumptions=["result dtypes are computed by calling the real torch op on meta tensors; matmul-family ops get an explicit same-dtype rule (torch on CPU raises there)"])
